@@ -285,6 +285,31 @@ example : Inv (run demoWorld demoCalls) := run_inv _ _ demo_Inv demo_runOk
 example : ((run demoWorld demoCalls).getF 2).pts.length = 4 := by
   decide +kernel
 
+/-! ### what a sum of functions denotes -/
+
+theorem getF_append_last (w : AW) (nf : AFun) : ({ w with funs := w.funs ++ [nf] } : AW).getF w.funs.length = nf := by
+  unfold AW.getF
+  simp
+
+/-- **a sum of functions denotes the weighted sum of its operands' leaf weights** — also when both operands are the same
+object (`f + f` weighs `f` twice) and whatever the signs (`f - f` is the zero function once pruned): for every valuation
+of the leaf functions, the decomposition of `c1·a + c2·b` evaluates to `c1·(a) + c2·(b)` -/
+theorem composite_weights (w : AW) (c1 : Coef) (a : Nat) (c2 : Coef) (b : Nat) (val : Nat → ℝ)
+    (hb : (Dict.keys (w.getF b).decomp).Nodup) :
+    Dict.denM val (((w.newComposite c1 a c2 b).1.getF (w.newComposite c1 a c2 b).2).decomp)
+      = ((c1 : ℚ) : ℝ) * Dict.denM val (w.getF a).decomp + ((c2 : ℚ) : ℝ) * Dict.denM val (w.getF b).decomp := by
+  unfold AW.newComposite
+  simp only
+  rw [getF_append_last]
+  simp only
+  rw [Dict.denM_merge _ _ _ (by rw [Dict.keys_scale]; exact hb), Dict.denM_scale, Dict.denM_scale]
+  simp [smul_eq_mul]
+
+/-- `f + f` on a leaf: weight 2 (kernel-checked instance) -/
+example : (((demoWorld.newComposite 1 0 1 0).1.getF 3).decomp) = [(0, 2)] := by decide +kernel
+
+
 end Pepit.C07
 
 #print axioms Pepit.C07.run_inv
+#print axioms Pepit.C07.composite_weights
